@@ -86,10 +86,19 @@ def neighbour_offsets(idx) -> List[Tuple[Poly, Poly]]:
     E = ExprEval(env={"i": Poly.const(0), "j": Poly.const(0), "k": Poly.const(0)}, opaque=False)
     offs = []
     for t in ret.value.elts:
-        if not isinstance(t, ast.Tuple) or len(t.elts) != 3 or norm(t.elts[2]) != "k":
+        if not isinstance(t, ast.Tuple) or len(t.elts) != 3:
             raise AnalysisError("neighbour entry must be (i+a, j+b, k)")
         offs.append((E.ev(t.elts[0]), E.ev(t.elts[1])))
     return offs
+
+
+def neighbour_axial_entries(idx) -> List[ast.AST]:
+    """the third entry of each neighbour tuple (rule: it is the cell's own axial index k)"""
+    f = idx.method(HEX, "getNeighboringCellIndices")
+    ret = next((n for n in walk_local(f.node) if isinstance(n, ast.Return)), None)
+    if ret is None or not isinstance(ret.value, ast.List):
+        raise AnalysisError("getNeighboringCellIndices: list of offsets expected")
+    return [t.elts[2] for t in ret.value.elts if isinstance(t, ast.Tuple) and len(t.elts) == 3]
 
 
 def if_chain(fnode_or_stmts) -> List[Tuple[List[Tuple[ast.AST, bool]], List[ast.stmt]]]:
